@@ -199,7 +199,9 @@ def check(pid, tier, only=None, jobs=None, verbose=False):
                         # the witness reaches the end under the twin but fails natively: that is a
                         # counterexample of the obligation itself; the main analysis will report it.
                         st['twin_ok'] = bool(trep.get('reached_end')) or trep.get('result') is not True
-                elif tw.get('status') in ('CONFIRMED', 'PRE_UNSAT'):
+                elif tw.get('status') == 'CONFIRMED' or (tw.get('status') == 'PRE_UNSAT' and r.get('status') == 'PRE_UNSAT'):
+                    # twin CONFIRMED: every path returns before the final ok(); PRE_UNSAT in both runs: no input meets the precondition.
+                    # (a twin that is PRE_UNSAT while the main analysis got past the precondition merely ran out of its small budget)
                     st['twin_ok'] = False
                     harness_errors.append('%s: vacuous obligation (twin %s)' % (n, tw.get('status')))
                 else:
@@ -279,7 +281,7 @@ def check(pid, tier, only=None, jobs=None, verbose=False):
     tot_checks = sum(r.get('solver_checks', 0) or 0 for st in state.values() for r in st['runs']) + sum(b.get('solver_checks', 0) for b in b_results)
     tot_solver_s = sum(r.get('solver_s', 0) or 0 for st in state.values() for r in st['runs']) + sum(b.get('solver_s', 0) for b in b_results)
     finals = [st['final'] for st in state.values()]
-    discharged = sum(1 for f in finals if f == 'CONFIRMED') + sum(1 for b in b_results if b.get('status') == 'UNSAT')
+    discharged = sum(1 for f in finals if f == 'CONFIRMED') + sum(1 for b in b_results if b.get('status') in ('UNSAT', 'VALIDATED'))
     samples = []
     for n in names:
         st = state[n]; last = st['runs'][-1] if st['runs'] else {}
